@@ -161,6 +161,26 @@ struct Outcome {
     uint64_t digest = 0;  // fingerprint of what the case computed (used by the uninitialised-memory differential)
 };
 
+// Deterministic step counter (random driver only): the san build instruments every comparison
+// (-fsanitize=fuzzer-no-link => trace-cmp); counting those callbacks gives a schedule-independent measure of work.
+static uint64_t g_steps = 0, g_max_steps = 0, g_max_steps_per_byte = 0;
+#ifndef VERIF_FUZZ_DRIVER
+extern "C" {
+void __sanitizer_cov_trace_cmp1(uint8_t, uint8_t) { ++g_steps; }
+void __sanitizer_cov_trace_cmp2(uint16_t, uint16_t) { ++g_steps; }
+void __sanitizer_cov_trace_cmp4(uint32_t, uint32_t) { ++g_steps; }
+void __sanitizer_cov_trace_cmp8(uint64_t, uint64_t) { ++g_steps; }
+void __sanitizer_cov_trace_const_cmp1(uint8_t, uint8_t) { ++g_steps; }
+void __sanitizer_cov_trace_const_cmp2(uint16_t, uint16_t) { ++g_steps; }
+void __sanitizer_cov_trace_const_cmp4(uint32_t, uint32_t) { ++g_steps; }
+void __sanitizer_cov_trace_const_cmp8(uint64_t, uint64_t) { ++g_steps; }
+void __sanitizer_cov_trace_switch(uint64_t, uint64_t*) { ++g_steps; }
+}
+#endif
+// optional per-property work bound: steps allowed for an input of n bytes (0 = no bound claimed)
+__attribute__((weak)) uint64_t prop_step_budget(size_t) { return 0; }
+uint64_t prop_step_budget(size_t n);
+
 static int g_stack_fill = -1;  // VERIF_STACK_FILL: overwrite the stack area below the property with this byte before each case
 __attribute__((noinline)) static void stack_fill(int byte) {
     volatile uint8_t area[96 * 1024];
@@ -181,8 +201,15 @@ static Outcome run_case(Ctx& ctx, const uint8_t* d, size_t n) {
     Src s(d, n);
     if (g_stack_fill >= 0) stack_fill(g_stack_fill);
     ctx.begin_case();
+    const uint64_t steps0 = g_steps;
     try {
         prop(s, ctx);
+        const uint64_t used = g_steps - steps0, budget = prop_step_budget(n);
+        if (budget && used > budget)
+            throw PropFail{std::string(PROP_ID) + ":step-budget-exceeded", "the case executed " + std::to_string(used) + " instrumented comparisons, budget for " +
+                                                                                   std::to_string(n) + " input bytes is " + std::to_string(budget)};
+        if (used > g_max_steps) g_max_steps = used;
+        if (n && used / (n + 64) > g_max_steps_per_byte) g_max_steps_per_byte = used / (n + 64);
         o.digest = ctx.case_digest();
         ctx.end_case();
         return o;
@@ -605,7 +632,8 @@ int main(int argc, char** argv) {
         std::string mp = work + "/meta." + std::to_string(worker) + ".json";
         FILE* f = fopen(mp.c_str(), "w");
         if (f) {
-            fprintf(f, "{\"done\": %" PRIu64 ", \"budget_hit\": %s, \"elapsed\": %.3f, \"rc\": %d}\n", done, budget_hit ? "true" : "false", elapsed(), rc);
+            fprintf(f, "{\"done\": %" PRIu64 ", \"budget_hit\": %s, \"elapsed\": %.3f, \"rc\": %d, \"max_steps\": %" PRIu64 ", \"max_steps_per_byte\": %" PRIu64 "}\n",
+                    done, budget_hit ? "true" : "false", elapsed(), rc, g_max_steps, g_max_steps_per_byte);
             fclose(f);
         }
     }
